@@ -169,6 +169,7 @@ pub fn dec_plan(prop: &str, tier: Tier) -> Vec<DecPlanItem> {
                     for (s, repl) in [(Sink::Utf8, false), (Sink::Utf16, true), (Sink::Utf8, true), (Sink::Utf16, false)] {
                         let mut it = item(e, s, repl, BomMode::Off, 3, &[]);
                         it.words = false;
+                        it.few_caps = true;
                         v.push(it);
                     }
                 }
@@ -294,6 +295,19 @@ pub fn dec_plan(prop: &str, tier: Tier) -> Vec<DecPlanItem> {
         }
         _ => panic!("no decoder plan for {}", prop),
     }
+    if !q && matches!(prop, "C07" | "C08" | "C09" | "C10") {
+        for e in QUICK_ENCS {
+            for (s, repl) in [(Sink::Utf8, true), (Sink::Utf16, false), (Sink::Utf8, false), (Sink::Utf16, true)] {
+                if prop == "C09" && !repl {
+                    continue;
+                }
+                let mut it = item(e, s, repl, if prop == "C10" { BomMode::Sniff } else { BomMode::Off }, 3, &[]);
+                it.words = false;
+                it.few_caps = prop != "C07";
+                v.push(it);
+            }
+        }
+    }
     let _ = single_byte_reps();
     v
 }
@@ -365,14 +379,17 @@ pub fn enc_plan(prop: &str, tier: Tier) -> Vec<EncPlanItem> {
     let mut v = vec![];
     let it = |enc: &'static str, source: Source, sink: ESink, repl: bool, k: usize, runs: &[usize], small: bool| EncPlanItem { enc, source, sink, repl, k, runs: runs.to_vec(), small };
     for &e in &encs {
-        let jp = e == "ISO-2022-JP";
+        let _jp = e == "ISO-2022-JP";
         match prop {
             "C03" | "C04" | "C12" => {
                 for source in [Source::Utf8, Source::Utf16] {
                     for repl in [false, true] {
                         // full text alphabet at k=1 from every state, small alphabet at k=2 (3 for ISO-2022-JP in thorough)
                         v.push(it(e, source, ESink::Slice, repl, 1, &[16, 17], false));
-                        v.push(it(e, source, ESink::Slice, repl, if !q && jp { 3 } else { 2 }, if q { &[16] } else { &[15, 16, 17, 33] }, true));
+                        v.push(it(e, source, ESink::Slice, repl, 2, if q { &[16] } else { &[15, 16, 17, 33] }, true));
+                        if !q {
+                            v.push(it(e, source, ESink::Slice, repl, 3, &[], true));
+                        }
                     }
                 }
                 if prop == "C04" || !q {
